@@ -377,9 +377,9 @@ Qed.
 (* the pinned expansion of one posting: as above unless the account is an equity account (or of
    no type at all), whose postings generate nothing *)
 Lemma expand_posting_pinned_dropped t ac p :
-  is_AL (p_acc p) = false -> is_IE (p_acc p) = false -> expand_posting t ac p = MOk [].
+  is_AL (p_acc p) = false -> is_IE (p_acc p) = false -> expand_posting_gen rebook_pinned t ac p = MOk [].
 Proof.
-  intros HAL HIE. unfold expand_posting, expand_posting_gen, rebook_pinned. rewrite HAL, HIE. reflexivity.
+  intros HAL HIE. unfold expand_posting_gen, rebook_pinned. rewrite HAL, HIE. reflexivity.
 Qed.
 
 Lemma expand_posting_fixed_leg t ac p l :
@@ -1053,7 +1053,7 @@ Qed.
 (* ---------------------------------------------------------------- the pinned code *)
 
 Lemma equity_refuted : exists s ac ts a c,
-  txn_create s = MOk ts /\ st_accrual s = Some ac /\
+  txn_create_gen rebook_pinned s = MOk ts /\ st_accrual s = Some ac /\
   ac_start ac <> 0 /\ ac_start ac <= ac_end ac /\
   a <> ac_account ac /\ ~ in_bookings (ac_account ac) (st_bookings s) /\
   ~ (booked_txns a c ts == booked_src a c (st_bookings s))%Q /\
